@@ -55,8 +55,9 @@ def h_conserve(run, cfg):
         else:
             tr = g.trades.get(w.di, [])
             cost = 0.0
-            for (s, q, price, par) in tr[state['ntr']:]:
-                o, f, b = g.trade_cost(s, q, price)
+            for tr1 in tr[state['ntr']:]:
+                s, q, price, par = tr1[:4]
+                o, f, b = g.trade_cost(s, q, price, tr1[4] if len(tr1) > 4 else None)
                 cost = cost + f + b
             state['ntr'] = len(tr)
             run.check_near(v1 - state['v'], info.get('flow', 0.0) + info.get('nonflow', 0.0) - cost, EPS_MONEY, 'operation-costs-only-explicit-costs', repr(op))
@@ -70,8 +71,9 @@ def h_conserve(run, cfg):
         for s in O.securities(root):
             mtm = mtm + s.positions[w.dts[di - 1]] * (PG[s.name][di] - PG[s.name][di - 1]) * s.multiplier
         cost = 0.0
-        for (s, q, price, par) in g.trades.get(di, []):
-            o, f, b = g.trade_cost(s, q, price)
+        for tr1 in g.trades.get(di, []):
+            s, q, price, par = tr1[:4]
+            o, f, b = g.trade_cost(s, q, price, tr1[4] if len(tr1) > 4 else None)
             cost = cost + f + b
         run.check_near(root.values[w.dts[di]] - root.values[w.dts[di - 1]],
                        mtm + g.flows.get(di, 0.0) + g.nonflows.get(di, 0.0) + carry(w, di - 1) - cost, EPS_MONEY, 'recorded-values-reconcile', 'date %d' % di)
@@ -109,6 +111,12 @@ def plan(tier):
                     if shape == 'SC':
                         cfg.update(ndates=4, tail_next=1)
                     tasks.append(dict(harness='conserve', cfg=cfg, opts=opts))
+    # custom-price trades on a security with a multiplier, and small same-date changes
+    for seq in ((['transact_px', 'b', 36.0], ['next']), (['transact_px', 'b', 0.0], ['transact', 'b']), (['next'], ['transact_px', 'a', 99.0]), (['adjust'], ['adjust_nf']),
+                (['adjust_nf'], ['adjust_nf'])):
+        for fee in (['uf'], ['prop', 0.001953125]):
+            cfg = dict(shape='S1', int=0, fee=fee, spread=1, ops=[list(o) for o in seq], mult=1)
+            tasks.append(dict(harness='conserve', cfg=cfg, opts=opts))
     # zero-price episode (held position priced 0 on two consecutive dates, then recovering)
     for seq in ((['transact', 'b'], ['next']), (['next'], ['adjust']), (['next'], ['next'])):
         for integer in (0, 1):
